@@ -408,12 +408,14 @@ def w2_build_overlap(col, rng, cidx, jobref):
         out["B_call"] = run_op_id("call_shared_while_other_thread_builds", call_shared, "b%d" % cidx)
         cfg.TAWAZI_EXECNODE_OUTSIDE_DAG_BEHAVIOR = behaviour
         try:
-            with warnings.catch_warnings(record=True) as wl:
-                warnings.simplefilter("always")
-                try:
-                    out["B_fn"] = ("ok", outside(Sym("direct", cidx)), len(wl))
-                except BaseException as e:  # noqa: BLE001
-                    out["B_fn"] = ("exc", e, len(wl))
+            # the warning recorder was installed by the MAIN thread before any thread started (warning filters are
+            # interpreter-wide: this thread must not touch them, or it would undo what another thread did to them)
+            n0 = sum(1 for w_ in recorded if issubclass(w_.category, RuntimeWarning))
+            try:
+                v_ = outside(Sym("direct", cidx))
+                out["B_fn"] = ("ok", v_, sum(1 for w_ in recorded if issubclass(w_.category, RuntimeWarning)) - n0)
+            except BaseException as e:  # noqa: BLE001
+                out["B_fn"] = ("exc", e, sum(1 for w_ in recorded if issubclass(w_.category, RuntimeWarning)) - n0)
         finally:
             cfg.TAWAZI_EXECNODE_OUTSIDE_DAG_BEHAVIOR = old
         ev_go.set()
@@ -424,12 +426,15 @@ def w2_build_overlap(col, rng, cidx, jobref):
     nm = (lambda k: "twz-client") if rng.random() < 0.5 else (lambda k: "twz-client-%s" % k)
     ta, tb, tc = (threading.Thread(target=thread_a, name=nm("a")), threading.Thread(target=thread_b, name=nm("b")),
                   threading.Thread(target=thread_c, name=nm("c")))
-    ta.start()
-    tb.start()
-    tc.start()
-    for t in (ta, tb, tc):
-        t.join(60)
-    ev_go.set()
+    recorded = []
+    with warnings.catch_warnings(record=True) as recorded:
+        warnings.simplefilter("always")
+        ta.start()
+        tb.start()
+        tc.start()
+        for t in (ta, tb, tc):
+            t.join(60)
+        ev_go.set()
     col.evaluations += 1
     col.counters["c16_build_overlaps"] += 1
     if any(t.is_alive() for t in (ta, tb, tc)) or "B_call" not in out or "B_fn" not in out or "A" not in out:
@@ -861,8 +866,11 @@ def a17_case(col, rng, cidx, jobref):
     steps5 = []
     for _q in range(rng.randint(2, 4)):
         r5 = rng.random()
-        if r5 < 0.4:
+        if r5 < 0.3:
             steps5.append(("toggle_debug", None))
+        elif r5 < 0.55:
+            nd5 = [ids5[i] for i in range(len(ids5)) if i not in dbg]
+            steps5.append(("executor", {} if rng.random() < 0.4 or not nd5 else {"target_nodes": rng.sample(nd5, rng.randint(1, min(3, len(nd5))))}))
         else:
             # a fresh power of ten keeps compound priorities tie-free, so the order at max_concurrency=1 stays unique
             i = rng.randrange(len(ids5))
@@ -884,10 +892,22 @@ def a17_case(col, rng, cidx, jobref):
                 lg = B.snapshot()
                 return (r[0], [e["node"] for e in lg if e["kind"] == "FENTER"], short(r[1], 200))
 
+            def exec5(kw5):
+                # the executor entry point of either flavour (whole selection or targets): same nodes, same order
+                B.reset_log()
+                B.Settings.controlled = False
+                ex5 = d5.executor(**kw5)
+                r = probes.run_op("executor", (lambda: asyncio.run(_await(ex5, a5))) if fl else (lambda: ex5(*a5)))
+                lg = B.snapshot()
+                return (r[0], [e["node"] for e in lg if e["kind"] == "FENTER"], short(r[1], 200))
+
             tr.append(call5())
             for kind5, arg5 in steps5:
                 if kind5 == "toggle_debug":
                     tcfg.RUN_DEBUG_NODES = not tcfg.RUN_DEBUG_NODES
+                elif kind5 == "executor":
+                    tr.append(exec5(arg5))
+                    continue
                 else:
                     d5.config_from_dict(arg5)
                 tr.append(call5())
